@@ -95,6 +95,11 @@ ApplyRet ==
                   THEN Add(code = "provisioning.live_apply_unauthorized" /\ Ev.exported = "old" /\ ~touched,
                            "AuthRequired", <<code, Ev.exported, touched>>)
                   ELSE {})
+          \* ... whenever it became running: an apply without authorisation never stops a run (no source is torn
+          \* down while it is in flight) - also when the pipeline was started between its checks
+          \cup (IF ~a.allow /\ ~p.empty
+                  THEN Add(~touched, "AuthRequired", <<"a run was stopped by an apply without authorisation", code, Ev.exported>>)
+                  ELSE {})
           \cup (IF Ev.err.nil /\ "concurrent-apply" \notin st.feats
                   THEN Add(Ev.exported = "new", "AppliedIsDesired", Ev.exported) ELSE {})
           \cup (IF ~Ev.err.nil /\ "concurrent-apply" \notin st.feats
